@@ -91,6 +91,40 @@ struct machine
         else { if (s[o].is_view()) f(*s[k].own, *s[o].view); else f(*s[k].own, *s[o].own); }
     }
 
+    // ---- two element references at once (RefPair): the call is made on the proxies in the value category the script names
+    template <class C> static typename C::reference ref_of(C& c, const std::string& p, size_t t)
+    {
+        if (p == "index") return c[t];
+        if (p == "at") return c.at(t);
+        if (p == "front") return c.front();
+        if (p == "back") return c.back();
+        if (p == "iter") return *(c.begin() + std::ptrdiff_t(t));
+        if (p == "riter") return *(c.rbegin() + std::ptrdiff_t(c.size() - 1 - t));
+        std::fprintf(stderr, "script: bad reference path %s\n", p.c_str()); std::exit(3);
+    }
+    template <class R1, class R2> static void swap_refs(R1&& r1, R2&& r2, std::true_type) { swap(std::forward<R1>(r1), std::forward<R2>(r2)); }   // ADL
+    template <class R1, class R2> static void swap_refs(R1&&, R2&&, std::false_type) { throw desync(); }      // no swap between reference types
+    template <class X, class Y> static void iter_swap_refs(X& x, const std::string& p1, size_t i, Y& y, const std::string& p2, size_t j, std::true_type)
+    {
+        std::ptrdiff_t ri = std::ptrdiff_t(x.size() - 1 - i), rj = std::ptrdiff_t(y.size() - 1 - j);
+        if (p1 == "iter" && p2 == "iter") std::iter_swap(x.begin() + std::ptrdiff_t(i), y.begin() + std::ptrdiff_t(j));
+        else if (p1 == "iter" && p2 == "riter") std::iter_swap(x.begin() + std::ptrdiff_t(i), y.rbegin() + rj);
+        else if (p1 == "riter" && p2 == "iter") std::iter_swap(x.rbegin() + ri, y.begin() + std::ptrdiff_t(j));
+        else if (p1 == "riter" && p2 == "riter") std::iter_swap(x.rbegin() + ri, y.rbegin() + rj);
+        else { std::fprintf(stderr, "script: iter_swap needs iterator paths\n"); std::exit(3); }
+    }
+    template <class X, class Y> static void iter_swap_refs(X&, const std::string&, size_t, Y&, const std::string&, size_t, std::false_type) { throw desync(); }
+    template <class R1, class R2> static void pair_apply(const std::string& pk, R1&& r1, R2&& r2)
+    {
+        using same = std::is_same<typename std::decay<R1>::type, typename std::decay<R2>::type>;
+        if (pk == "swap") swap_refs(std::forward<R1>(r1), std::forward<R2>(r2), same());
+        else if (pk == "assign") r1 = std::forward<R2>(r2);
+        else if (pk == "and") r1 &= r2;
+        else if (pk == "or") r1 |= r2;
+        else if (pk == "xor") r1 ^= r2;
+        else { std::fprintf(stderr, "script: bad pair kind %s\n", pk.c_str()); std::exit(3); }
+    }
+
     template <class BS> static std::string bitsval(const BS& r)
     {
         vj::out o;
@@ -343,6 +377,21 @@ struct machine
                     else if (path == "riter") apply(*(x.rbegin() + std::ptrdiff_t(x.size() - 1 - i)));
                     else { std::fprintf(stderr, "script: bad write path %s\n", path.c_str()); std::exit(3); }
                     return 0;
+                });
+            }
+            else if (op == "RefPair")
+            {
+                // two element references: bit i of object k through path p1, bit j of object src through path p2
+                const std::string& p1 = a.str("p1"); const std::string& p2 = a.str("p2");
+                const std::string& pk = a.str("pk"); const std::string& vc = a.str("vc");
+                size_t i = size_t(a.num("i")), j = size_t(a.num("j"));
+                with2(k, src, [&](auto& x, auto& y) {
+                    using X = typename std::decay<decltype(x)>::type; using Y = typename std::decay<decltype(y)>::type;
+                    if (pk == "iterswap") iter_swap_refs(x, p1, i, y, p2, j, std::is_same<X, Y>());
+                    else if (vc == "tmp") pair_apply(pk, ref_of(x, p1, i), ref_of(y, p2, j));
+                    else if (vc == "named") { auto r1 = ref_of(x, p1, i); auto r2 = ref_of(y, p2, j); pair_apply(pk, r1, r2); }
+                    else if (vc == "copy") { auto r1 = ref_of(x, p1, i); auto r2 = ref_of(y, p2, j); auto c1 = r1; auto c2(r2); pair_apply(pk, c1, c2); }
+                    else { std::fprintf(stderr, "script: bad value category %s\n", vc.c_str()); std::exit(3); }
                 });
             }
             else if (op == "Fill")
